@@ -1,7 +1,7 @@
 (* C03 -- A completed sync is a fixed point: re-running changes nothing.
    "Equivalently, every transfer path leaves the destination entry in a state that the next comparison
-   recognises as up to date": proved for every path except the block-delta paths, which the model refutes
-   (C03_refuted_big_update, known finding C03-KF1). *)
+   recognises as up to date": proved for every path of the model, which follows the repaired code
+   (`fix: restore the source mtime ...`; before it the block-delta paths were a refuted case, C03-KF1). *)
 From Coq Require Import NArith ZArith List Bool Lia.
 From SyModel Require Import Engine.
 From SyProofs Require Import Engine_proofs.
@@ -12,58 +12,72 @@ Proof. unfold mtime_matches. rewrite Z.sub_diag. reflexivity. Qed.
 
 (* an entry in the state C01 guarantees (with the source's mtime) is planned Skip by the next run,
    in every comparison mode except --ignore-times (which by definition re-transfers) *)
-Theorem C03_transfer_then_skip : forall c e m' ,
+Theorem C03_transfer_then_skip : forall c ds e m' ,
   c_ignore_times c = false -> se_is_dir e = false ->
   m' (se_path e) = Some (File (se_content e) (se_size e) (se_mtime e)) ->
-  t_action (plan_entry c m' e) = ASkip.
+  t_action (plan_entry c ds m' e) = ASkip.
 Proof.
-  intros c e m' Hit Hd Hm. unfold plan_entry. rewrite Hd, Hm. cbn [t_action].
+  intros c ds e m' Hit Hd Hm. unfold plan_entry. rewrite Hd, Hm. cbn [t_action].
   destruct (c_checksum c) eqn:Ec; [rewrite N.eqb_refl; reflexivity|].
   unfold needs_update. rewrite Ec, Hit. destruct (c_size_only c); rewrite N.eqb_refl; cbn; [reflexivity|].
   rewrite mtime_matches_refl. reflexivity.
 Qed.
 Print Assumptions C03_transfer_then_skip.
 
-Theorem C03_dir_then_skip : forall c e m', se_is_dir e = true -> m' (se_path e) = Some Dir -> t_action (plan_entry c m' e) = ASkip.
-Proof. intros c e m' Hd Hm. unfold plan_entry. rewrite Hd, Hm. reflexivity. Qed.
+Theorem C03_dir_then_skip : forall c ds e m', se_is_dir e = true -> m' (se_path e) = Some Dir -> t_action (plan_entry c ds m' e) = ASkip.
+Proof. intros c ds e m' Hd Hm. unfold plan_entry. rewrite Hd, Hm. reflexivity. Qed.
 Print Assumptions C03_dir_then_skip.
 
 (* a file that the first run skipped is skipped again (the plan depends only on the entry's own state) *)
-Theorem C03_skip_stable : forall c e m m', m' (se_path e) = m (se_path e) -> plan_entry c m' e = plan_entry c m e.
-Proof. intros c e m m' H. unfold plan_entry. rewrite H. reflexivity. Qed.
+Theorem C03_skip_stable : forall c ds e m m', m' (se_path e) = m (se_path e) -> plan_entry c ds m' e = plan_entry c ds m e.
+Proof. intros c ds e m m' H. unfold plan_entry. rewrite H. reflexivity. Qed.
 Print Assumptions C03_skip_stable.
 
-(* the fixed point: after a successful run without --delete, the immediate re-run plans Skip for every selected
-   entry that is not in the known class, and a run that only skips leaves the destination as it is *)
-Theorem C03_rerun_plans_skip : forall refuse c now U src dst,
+(* the fixed point: after a successful run, the immediate re-run plans Skip for every selected entry
+   (every mode except --ignore-times) *)
+Theorem C03_rerun_plans_skip : forall refuse ds c now U src dst,
   src_wf src -> c_dry_run c = false -> c_ignore_times c = false -> dst [] = None ->
   (forall e, In e src -> se_is_dir e = true -> forall cc s t, dst (se_path e) <> Some (File cc s t)) ->
-  let r := run refuse c now U src dst in
+  (forall e, In e src -> se_is_dir e = false -> dst (se_path e) <> Some Dir) ->
+  let r := run refuse ds c now U src dst in
   r_refused r = false -> r_errors r = [] ->
-  forall e, In e src ->
-    t_action (plan_entry c (r_fs r) e) = ASkip \/
-    (exists dc dsz dmt, dst (se_path e) = Some (File dc dsz dmt) /\ N.ltb dsz (c_big c) = false /\ needs c dst e = true).
+  forall e, In e src -> t_action (plan_entry c ds (r_fs r) e) = ASkip.
 Proof.
-  intros refuse c now U src dst Hwf Hdry Hit Hroot Hnf r Href Herr e He.
-  destruct (run_post refuse c now U src dst Hwf Hdry Hroot Hnf Href Herr e He) as (x & Hx & Hg).
+  intros refuse ds c now U src dst Hwf Hdry Hit Hroot Hnf Hnd2 r Href Herr e He.
+  destruct (run_post refuse ds c now U src dst Hwf Hdry Hroot Hnf Hnd2 Href Herr e He) as (x & Hx & Hg).
   fold r in Hx. unfold good in Hg. destruct (se_is_dir e) eqn:Hd.
-  - left. subst x. apply C03_dir_then_skip; assumption.
-  - destruct (needs c dst e) eqn:En.
-    + destruct Hg as (mt & Ex & [Emt|(Emt & dc & dsz & dmt & Ed & Eb)]).
-      * left. inversion Ex; subst. apply C03_transfer_then_skip; assumption.
-      * right. exists dc, dsz, dmt. repeat split; assumption.
-    + left. rewrite (C03_skip_stable c e dst (r_fs r)) by (rewrite Hx; exact Hg).
-      unfold needs in En. destruct (t_action (plan_entry c dst e)); try discriminate. reflexivity.
+  - subst x. apply C03_dir_then_skip; assumption.
+  - destruct (needs c ds dst e) eqn:En.
+    + unfold file_post in Hg. inversion Hg; subst. apply C03_transfer_then_skip; assumption.
+    + rewrite (C03_skip_stable c ds e dst (r_fs r)) by (rewrite Hx; exact Hg).
+      unfold needs in En. destruct (t_action (plan_entry c ds dst e)); try discriminate. reflexivity.
 Qed.
 Print Assumptions C03_rerun_plans_skip.
 
-(* Known finding C03-KF1: the entry left by the block-delta paths is NOT recognised as up to date *)
-Theorem C03_refuted_big_update :
-  exists c e m', c_ignore_times c = false /\ m' (se_path e) = Some (File (se_content e) (se_size e) 9000000000000%Z)
-                 /\ t_action (plan_entry c m' e) = AUpdate.
+(* ... and with --delete the re-run has nothing left to delete: the first run left an exact mirror *)
+Theorem C03_rerun_plans_no_deletion : forall refuse ds c now U src dst,
+  src_wf src -> c_dry_run c = false -> c_delete c = true -> dst [] = None ->
+  (forall e, In e src -> se_is_dir e = true -> forall cc s t, dst (se_path e) <> Some (File cc s t)) ->
+  (forall e, In e src -> se_is_dir e = false -> dst (se_path e) <> Some Dir) ->
+  let r := run refuse ds c now U src dst in
+  r_refused r = false -> r_errors r = [] ->
+  plan_deletions src (filter (fun p => match r_fs r p with Some _ => true | None => false end) U) = [].
 Proof.
-  exists (mk_cfg false false 50 false false false false 100 100), (mk_sentry [1%N] false 200 1000%Z 7 false),
-         (fun _ => Some (File 7 200 9000000000000%Z)).
-  repeat split.
+  intros refuse ds c now U src dst Hwf Hdry Hdel Hroot Hnf Hnd2 r Href Herr.
+  unfold plan_deletions. destruct (filter _ (filter _ U)) as [|q l] eqn:E; [reflexivity|]. exfalso.
+  assert (Hq : In q (q :: l)) by (left; reflexivity). rewrite <- E in Hq. apply filter_In in Hq. destruct Hq as [Hq Hn].
+  apply filter_In in Hq. destruct Hq as [HqU Hs].
+  assert (Hin : In q (paths_of src)).
+  { apply (mirror refuse ds c now U src dst Hwf Hdry Hdel Hroot Hnf Hnd2 Href Herr q HqU). fold r. destruct (r_fs r q); [discriminate | discriminate]. }
+  apply negb_true_iff in Hn. unfold paths_of in Hin. apply in_map_iff in Hin. destruct Hin as (e & Ee & He).
+  assert (existsb (fun e0 => peqb (se_path e0) q) src = true) by (apply existsb_exists; exists e; split; [exact He | apply peqb_eq; exact Ee]). congruence.
 Qed.
-Print Assumptions C03_refuted_big_update.
+Print Assumptions C03_rerun_plans_no_deletion.
+
+(* the case that used to fail (C03-KF1, repaired) *)
+Example C03_big_update_then_skip :
+  let c := mk_cfg false false 50 false false false false 100 100 in
+  let e := mk_sentry [1%N] false 200 1000%Z 7 false in
+  let dst : fs := fun p => if peqb p [1%N] then Some (File 8 150 500%Z) else None in
+  t_action (plan_entry c (fun _ => (0%N, 0%Z)) (r_fs (run (fun _ _ _ => false) (fun _ => (0%N, 0%Z)) c 9000%Z [[1%N]] [e] dst)) e) = ASkip.
+Proof. vm_compute. reflexivity. Qed.
